@@ -41,6 +41,11 @@ def v6_text(rng, v, spelling=None):
     """Return (text, spelling).  All spellings are accepted by ipaddress.IPv6Address."""
     sp = spelling or rng.choice(["canon", "canon", "full", "upper", "mixed", "altzip", "nozip", "padded"])
     a = ipaddress.IPv6Address(v)
+    if sp == "pad2":
+        # eight groups of exactly two hex digits (only for values whose groups are all below 0x100); reads like an EUI-64
+        if all(g < 0x100 for g in v6_groups(v)):
+            return ":".join("%02x" % g for g in v6_groups(v)), sp
+        sp = "canon"
     if sp == "canon":
         return str(a), sp
     if sp == "full":
